@@ -160,7 +160,14 @@ class SSHForwarder(asyncio.BaseProtocol):
         if self._peer:
             self._peer.write_eof()
 
-            return not self._peer.was_eof_received()
+            if self._peer.was_eof_received():
+                # Both directions have been shut down now. Close both
+                # sides, as nothing else will ever do so when this side
+                # is an SSH channel rather than a socket.
+                self.close()
+                return False
+
+            return True
         else:
             return True
 
